@@ -48,6 +48,10 @@ CHECKS = {
    technique="bounded symbolic model checking of the compiled code (Kani/CBMC + CaDiCaL): arbitrary words, symbolic operation and observer indices",
    text="For N in {1,2,3} words with arbitrary contents: point operations, binary operators and assigning forms, complement, count, equality, constructors observed at a symbolic index; the iterator's first three yields on arbitrary words and whole runs for popcount <= 4.",
    note="Trusted: Kani/CBMC/CaDiCaL. N > 3 and the 0/1 string rendering are outside."),
+ "C13": dict(engine="mirsym", design="DESIGN.md#c13",
+   technique="symbolic execution of the MIR of rlib_sieve with the limit enumerated and the query arguments symbolic (z3)",
+   text="For every limit N <= 64 (quick) / 300 (thorough) Sieve::new(N) is executed on its MIR; then for symbolic n (and d) the solver decides that the table entry is the least prime factor, primality flags agree, and factorize(n) yields increasing primes whose powers multiply to n, for every n <= N at once; the prime list is compared with trial division.",
+   note="Trusted: MIR dump; mirsym interpreter + Vec/Range models (every counterexample replayed natively); z3. Limits above 300 outside."),
  "C14": dict(engine="kani", design="DESIGN.md#c14",
    technique="bounded symbolic model checking of the compiled code (Kani/CBMC + CaDiCaL): symbolic bounds x raw output; existential claims as cover goals over all 2^64 seeds",
    text="Every integer type and range form: draw inside the range for every raw output, every value reachable (Skolem witness); f64 half-open range for all finite bounds; shuffle is a permutation for every seed, every arrangement of 3 and 4 elements reachable by some seed, small-range draws not periodic (cover goals that must be satisfiable).",
@@ -60,6 +64,10 @@ CHECKS = {
    technique="bounded symbolic model checking of the compiled code (Kani/CBMC + CaDiCaL) on enumerated skeletons (heap order of every output) + existential cover goals over all generator states",
    text="Heap order (parent <= child on every edge) is asserted for every output tree of every C03 instance; the priority source is checked through existential goals over all 2^64 generator states (all order patterns of three consecutive priorities reachable, top bit and both halves vary) and the first node priorities of a process. The logarithmic height bound on 10^6-element histories is NOT decided.",
    note="Trusted: Kani/CBMC/CaDiCaL. Detects broken heap maintenance and degenerate priority sources, not insufficient randomness."),
+ "C17": dict(engine="mirsym", design="DESIGN.md#c17",
+   technique="schedule exploration on the MIR (two interpreter threads, fork at every access to process-wide memory) with a symbolic generator state; z3 for the outcome verdict",
+   text="mirsym runs two interpreter threads over the MIR of TreapNode::new -> gen_priority -> next_raw and explores every sequentially consistent interleaving of their accesses to process-wide memory: no reachable point where both threads' next accesses conflict unsynchronised (data race), and for every initial generator state the priorities obtained equal those of some sequential order of the calls. A self-test on the recorded racy MIR must find both defects. Violations are confirmed with Miri.",
+   note="Trusted: MIR dump; the thread_local!/Cell model; sequential consistency. Mutex/atomics are not modelled (inconclusive). 2 threads x <= 2 creations."),
  "C18": dict(engine="x87sym", design="DESIGN.md#c18",
    technique="symbolic interpretation of the x87 asm! templates (parsed from the source) over SMT-LIB FloatingPoint(15,64) with z3; all pairs of f64 bit patterns",
    text="x87sym parses every asm! template and the Rust glue of rlib_f80 from the current source, interprets them on a symbolic register stack and proves, for all pairs of f64 bit patterns, that each arithmetic operator equals the correctly rounded IEEE result on the widened operands (operand order, signed zeros), conversions are exact/correctly rounded, and <, <=, >, >=, partial_cmp, ==, !=, min, max, abs follow the IEEE order.",
